@@ -677,8 +677,12 @@ def splice_fn(fd, files, asm, canary=False, record=True):
             # multi-line rewrites: whole lines, compared modulo indentation
             olines = [x.strip() for x in rw['old'].split('\n') if x.strip()]
             tl = text.split('\n')
-            hits = [k for k in range(len(tl) - len(olines) + 1)
-                    if all(tl[k + q].strip() == olines[q] for q in range(len(olines)))]
+            # blank lines inside the replaced region do not count (on either side)
+            nb = [k for k in range(len(tl)) if tl[k].strip()]
+            hits_nb = [j for j in range(len(nb) - len(olines) + 1)
+                       if all(tl[nb[j + q]].strip() == olines[q] for q in range(len(olines)))]
+            hits = [nb[j] for j in hits_nb]
+            ends = {nb[j]: nb[j + len(olines) - 1] for j in hits_nb}
             cnt = len(hits)
             if cnt > rw['count']:
                 raise LostAnchor("rewrite anchor in %s occurs %d times, expected %d: %r"
@@ -690,7 +694,7 @@ def splice_fn(fd, files, asm, canary=False, record=True):
                     {'item': item, 'kind': rw['kind'], 'found': cnt, 'expected': rw['count'], 'old': rw['old']})
             for k in reversed(hits):
                 ind = tl[k][:len(tl[k]) - len(tl[k].lstrip())]
-                tl[k:k + len(olines)] = [ind + x.strip() for x in rw['new'].split('\n')]
+                tl[k:ends[k] + 1] = [ind + x.strip() for x in rw['new'].split('\n')]
             text = '\n'.join(tl)
         else:
             # single-line rewrites are matched modulo surrounding indentation
@@ -727,6 +731,7 @@ def splice_fn(fd, files, asm, canary=False, record=True):
         k = fn_kw_pos
         br = None
         arrow = None
+        where_seen = False
         while k < len(mask):
             ch = mask[k]
             if ch in '([':
@@ -736,8 +741,12 @@ def splice_fn(fd, files, asm, canary=False, record=True):
             elif ch == '{' and d == 0:
                 br = k
                 break
-            elif mask.startswith('->', k) and d == 0:
+            elif mask.startswith('->', k) and d == 0 and not where_seen:
+                # (arrows after `where` belong to Fn(..) -> .. bounds, not to the signature)
                 arrow = k
+            elif d == 0 and mask.startswith('where', k) and not (mask[k - 1].isalnum() or mask[k - 1] == '_') \
+                    and not (mask[k + 5].isalnum() or mask[k + 5] == '_'):
+                where_seen = True
             k += 1
         if br is None:
             raise LostAnchor("no body in %s" % item)
